@@ -28,6 +28,10 @@ def load(name, src):
 
 
 def load_classes(m, split):
+    if split == "nofuture":
+        mid, src = synth.source(m, future=False)
+        mod = load("cm_" + mid, src)
+        return mid, {c: getattr(mod, synth.cname(c, mid)) for c in ("K1", "K2", "K3")}
     if not split:
         mid, src = synth.source(m)
         mod = load("cm_" + mid, src)
@@ -89,6 +93,22 @@ def diagram(case):
                     ops.append(["role_taker", [cd.get_role_taker_associations_of_cls(w.clazz) is not None for w in cd.wrapped_classes]])
                 elif op == "assoc_cond":
                     ops.append(["assoc_cond", sum(len(list(cd.get_associations_with_condition(w.clazz, lambda a: True))) for w in cd.wrapped_classes)])
+                elif op in ("sub_query_first", "orig_query_first"):
+                    # the per-class query API of a diagram and of the view derived from it, asked in either order, must
+                    # each agree with that diagram's own edge list
+                    sub = cd.to_subdiagram_without_inherited_associations()
+
+                    def asked(d):
+                        return sorted([short[r.source.clazz], r.field.public_name, short[r.target.clazz]]
+                                      for w in d.wrapped_classes for r in d.get_outgoing_relations(w.clazz) if hasattr(r, "field"))
+                    if op == "sub_query_first":
+                        s_q = asked(sub)
+                        o_q = asked(cd)
+                    else:
+                        o_q = asked(cd)
+                        s_q = asked(sub)
+                    ops.append([op, {"orig_asked": o_q, "orig_edges": snapshot(cd, short)["assoc"],
+                                     "sub_asked": s_q, "sub_edges": snapshot(sub, short)["assoc"]}])
                 elif op == "parent_map":
                     ops.append(["parent_map", len(cd.parent_map) if hasattr(cd.parent_map, "__len__") else 0])
             except Exception as ex:
@@ -99,7 +119,7 @@ def diagram(case):
         # a second diagram over the same classes (another order) must be the same diagram
         cd2 = ClassDiagram([classes[c] for c in ORDERS[(case.get("order", 0) + 3) % 6]])
         out["diagram_other_order"] = snapshot(cd2, short)
-        if case.get("split") and m["b2"] == "-" and m["b3"] == "-":
+        if case.get("split") is True and m["b2"] == "-" and m["b3"] == "-":
             # a new version of K1 (its module is executed again: a new class object with the same name) in a new diagram with
             # the SAME K2 / K3 classes: forward references to K1 must resolve to the class of the diagram they are in
             name = f"cms_{mid}_K1"
